@@ -171,6 +171,8 @@ class Gen:
             self.count("fault_stmt")
             return r.choice(["a = nope", "xs[99] = 1", "b = 1 % 0", "s = s + 1", "zz.append(1)", "c = d['zz']"])
         k = r.randint(0, 12)
+        if getattr(self, "loop_depth", 0) > 0 and k in (7, 8, 11, 12):
+            k = 3      # no list growth inside loops: repeated visits would grow lists exponentially
         if k <= 2:
             return f"{r.choice(INT_VARS)} = {self.int_expr(0, ints)}"
         if k == 3:
@@ -231,11 +233,12 @@ class Gen:
             if default is not None and r.random() < 0.5:
                 use_kw = True          # skip it; everything after must be keyword
                 continue
+            val = self.int_expr(1, ints) if r.random() > 0.12 else r.choice(["z", "None"])
             if use_kw or r.random() < 0.25:
                 use_kw = True
-                out.append(f"{name}={self.int_expr(1, ints)}")
+                out.append(f"{name}={val}")
             else:
-                out.append(self.int_expr(1, ints))
+                out.append(val)
         return ", ".join(out)
 
     def target(self, cur_idx, forward_only):
@@ -320,7 +323,12 @@ class Gen:
             var, coll, inner = r.choice(["a", "it"]), r.choice(["ys", "list(xs)"]), ints   # shadows / restores a global
         else:
             var, coll, inner = "it", r.choice(["nope", "5", "xs[99]"]), ints       # failing collection
-        return {"k": "for", "var": var, "coll": coll, "body": self.block_items(cur_idx, depth, inner, in_loop=True)}
+        self.loop_depth = getattr(self, "loop_depth", 0) + 1
+        try:
+            body = self.block_items(cur_idx, depth, inner, in_loop=True)
+        finally:
+            self.loop_depth -= 1
+        return {"k": "for", "var": var, "coll": coll, "body": body}
 
     def render(self, ints=None):
         r = self.r
@@ -350,9 +358,14 @@ class Gen:
                 f"xs = [{', '.join(str(r.randint(0, 5)) for _ in range(r.randint(0, 3)))}]",
                 f"ys = [{', '.join(str(r.randint(0, 5)) for _ in range(r.randint(1, 3)))}]",
                 f"ws = [{', '.join(repr(self.word()) for _ in range(r.randint(0, 2)))}]",
-                f"d = {{'k': {r.randint(0, 5)}, 'm': {r.randint(0, 5)}}}", "hlog = []"]]
+                f"d = {{'k': {r.randint(0, 5)}, 'm': {r.randint(0, 5)}}}", "hlog = []", "z = None"]]
             items += [{"k": "stmt", "code": f"n_{n} = 0", "comment": None} for n in self.names + self.hook_names]
         items.append({"k": "stmt", "code": f"n_{name} = n_{name} + 1", "comment": None})
+        if r.random() < self.f.get("probes", 0.5):
+            # probe: what the passage sees as its parameter scope on entry
+            items.append({"k": "stmt", "code": f"lk_{name} = dict(_local)", "comment": None})
+        if params and r.random() < self.f.get("probes", 0.5):
+            items.append({"k": "render", "name": f"pr_{name}", "args": ", ".join(p for p, _ in params)})
         saved_sf = self.f["stmt_faults"]
         if idx == 0:
             self.f["stmt_faults"] = saved_sf / 8
@@ -423,7 +436,8 @@ class Gen:
     def hook_passage(self, name):
         r = self.r
         items = [{"k": "stmt", "code": f"n_{name} = n_{name} + 1", "comment": None},
-                 {"k": "stmt", "code": f"hlog.append('{name}')", "comment": None}]
+                 {"k": "stmt", "code": f"hlog.append('{name}')", "comment": None},
+                 {"k": "stmt", "code": f"lk_{name} = dict(_local)", "comment": None}]
         if r.random() < 0.7:
             items.append({"k": "line", "parts": [("t", f"[{name} "), ("e", f"n_{name}"), ("t", "]")], "glue": False, "tags": [], "comment": None})
         if r.random() < 0.25:
